@@ -163,7 +163,7 @@ CHECKS = {
                   "reference frame of build_command's payload for the merged settings and the reported previous state); swing_frame_iff; "
                   "nothing_actionable (RuntimeError after login); never_false_success (induction over the interaction tree: a reported "
                   "success implies no consumed reply was empty, for ALL reply sequences). Correspondence: subsets x states x remotes x "
-                  "update flag, empty reply injected at each step, Spec judges per frame.",
+                  "update flag, empty reply injected at each step, several requests through one api object (also against a thermostat that is slow to answer, under a virtual loop clock), Spec judges per frame.",
              note="Trusted: Lean kernel (propext, Classical.choice, Quot.sound), scripted reader, Python truthiness of the arguments as modelled "
                   "(target_temp 0 = omitted; enum members truthy).",
              tech="Lean 4 proof (interaction-tree invariants, frame reflection) + fault-injection correspondence + Spec judge",
